@@ -989,6 +989,10 @@ class Conv:
         if name == "atan2":
             i = self._opaque_var("A", x, [self.f(a), self.f(x.args[2])])
             return Frac(Fraction(1), self.ring.gen(i))
+        if name == "remainder":
+            # opaque real (no algebraic relation to its argument is used): identities that need x mod m == x are not provable
+            i = self._opaque_var("M", x, [self.f(a), self.f(x.args[2])])
+            return Frac(Fraction(1), self.ring.gen(i))
         if name == "nonneg":
             # value of an environment stub whose documented contract is x >= 0 (listed as an assumption unless implied)
             if not isinstance(a, Fraction):
